@@ -458,6 +458,8 @@ def ip : P String := do
     | none => vd
   -- every logged Pruner answer keeps whole entries of its input (pruner_moves_whole_entries)
   let vd := vd.failIf (!(calls.all (fun c => subMultiset c.2 c.1))) "Pruner entries_not_moved_whole"
+  -- ... and never empties a non-empty list: with these two facts `ip_consistent` applies to the run with THIS pruner
+  let vd := vd.failIf (!(calls.all (fun c => c.1.isEmpty || !c.2.isEmpty))) "Pruner emptied_a_list"
   if !vd.fails.isEmpty then return vd.render
   -- misses are counted through a sentinel: an input list the library never handed to its Pruner comes back untouched
   let pr := fun (l : VList) => match calls.find? (fun c => sameVList c.1 l) with | some c => c.2 | none => l
@@ -491,6 +493,10 @@ def wt : P String := do
     | some (_, what, dev) => vd.failIf true s!"Witness {what} dev={qstr dev}"
     | none => vd
   let vd := vd.failIf (!(subMultiset pout pin)) "Pruner entries_not_moved_whole"
+  let vd := vd.failIf (!pin.isEmpty && pout.isEmpty) "Pruner emptied_a_list"
+  -- the hypothesis of `witness_consistent` on the LP, checked on its own answers: with no optimal row added yet (U[a] empty)
+  -- every query has a witness
+  let vd := vd.failIf (!(calls.all (fun cs => cs.all (fun c => c.uLen != 0 || c.ans.isSome)))) "WitnessLP no_witness_with_empty_set"
   if !vd.fails.isEmpty then return vd.render
   let exact := levelB eqQ m prev level
   let witOf := fun (a : Nat) (U : VList) (v : List Rat) =>
